@@ -124,7 +124,6 @@ static void level_texts(hwloc_topology_t t, const char *src)
         int must = 1;
         if (d == HWLOC_TYPE_DEPTH_BRIDGE) must = o->attr->bridge.upstream_type == fo->attr->bridge.upstream_type;
         if (d == HWLOC_TYPE_DEPTH_OS_DEVICE) must = o->attr->osdev.types == fo->attr->osdev.types;
-        if (o->type == HWLOC_OBJ_GROUP) must = o->attr->group.depth == fo->attr->group.depth;   /* one normal level only holds one group depth; be explicit */
         if (must && strcmp(buf, first)) mc_violation("c11.level.same-text", "%s :: depth %d flags %#lx: \"%s\" vs \"%s\"", src, d, fl, first, buf);
         mc_count("level_text_comparisons", 1);
       }
@@ -206,7 +205,7 @@ int main(int argc, char **argv)
           for (hwloc_obj_t g = hwloc_get_next_obj_by_type(t1, HWLOC_OBJ_GROUP, NULL); g; g = hwloc_get_next_obj_by_type(t1, HWLOC_OBJ_GROUP, g)) one_object(t1, g, hb.s);
           /* a second insertion on top of the first (lean alphabet of the new state) */
           struct op *ops2; int nops2 = ops_enumerate(t1, &sc, &ops2);
-          for (int j = 0; j < nops2 && j < 40 && !mc_deadline(); j++) {
+          for (int j = 0; j < nops2 && !mc_deadline(); j++) {
             struct hist h2 = h1; h2.ops[h2.n++] = ops2[j];
             hwloc_topology_t t2 = NULL;
             if (MC_TRY(30000)) { t2 = hist_build(&h2); mc_try_end(); }
